@@ -12,6 +12,7 @@ CONSTANTS
   MaxLive = %(maxlive)d
   AuxCounts = {%(aux)s}
 INVARIANTS TypeOK NoAlias HandedOutExact BigEnough ClassStable UnderExact AllBackAfterClearAll IdleBackAfterClearCache WarnImpliesWarned
+  AllBackAfterDestroy InstalledIffGlobal
 PROPERTIES WarnOnce ReturnsOwned UnknownReleaseHarmless
 CHECK_DEADLOCK FALSE
 """
@@ -24,6 +25,7 @@ CONSTANTS
   AuxCounts = {1}
   D = %(D)d
   ForeignSizes = {%(fsizes)s}
+  Kinds = {%(kinds)s}
 INVARIANTS Dump
 CHECK_DEADLOCK FALSE
 """
@@ -77,11 +79,15 @@ def boundary_sizes(bounds, extra=(0, 1, 1024)):
     return sorted(s)
 
 
-def random_exec(rng, nops, bounds, maxlive=24):
-    """Seeded random history: boundary-biased sizes, releases in arbitrary order with a (possibly different) size of the
-    same class, foreign pointers, clears in between; ends with clearAll."""
+def random_exec(rng, nops, bounds, maxlive=24, kind="bare"):
+    """Seeded random history of one kind of cache object.  bare: boundary-biased sizes, releases in arbitrary order with a
+    (possibly different) size of the same class, foreign pointers, clears in between, now and then clearAll + destroy + a
+    new cache; ends with clearAll.  global: buffers requested through the adaptor and by SimpleString objects, released in
+    arbitrary order, now and then the global cache is destroyed with buffers still in use and constructed again; ends with
+    the destruction of the global cache while buffers are in use."""
     limit = bounds[-1]
     bs = boundary_sizes(bounds)
+    glob = kind == "global"
 
     def cls(n):
         for b in bounds:
@@ -95,7 +101,7 @@ def random_exec(rng, nops, bounds, maxlive=24):
             return rng.choice([n, limit + 1, 1024, rng.randrange(limit + 1, 1025)])
         lo = max([b for b in bounds if b < c] + [-1]) + 1
         return rng.choice([n, lo, c, rng.randrange(lo, c + 1)])
-    ex, live, na = [], {}, 0
+    ex, live, na, strs = [["gnew" if glob else "new", 0, 0]], {}, 0, set()
     for _ in range(nops):
         r = rng.random()
         if r < 0.45 and len(live) < maxlive:
@@ -104,10 +110,22 @@ def random_exec(rng, nops, bounds, maxlive=24):
                 n = same_class_size(rng.choice(sorted(live.values())))
             na += 1
             live[na] = n
-            ex.append(["alloc", na, n])
+            if glob and n > 0 and rng.random() < 0.6:
+                strs.add(na)
+                ex.append(["snew", na, n])
+            else:
+                ex.append(["alloc", na, n])
         elif r < 0.85 and live:
             k = rng.choice(sorted(live))
-            ex.append(["dealloc", k, same_class_size(live.pop(k))])
+            if k in strs:
+                ex.append(["sdel", k, live.pop(k)])
+            else:
+                ex.append(["dealloc", k, same_class_size(live.pop(k))])
+        elif glob:
+            if r > 0.97:                          # the global cache goes away while buffers are in use; a new one is installed
+                ex.append(["gdel", 0, 0])
+                ex.append(["gnew", 0, 0])
+                live = {}
         elif r < 0.90:
             ex.append(["foreign", rng.randrange(4), rng.choice(bs + [2000])])
         elif r < 0.96:
@@ -115,8 +133,28 @@ def random_exec(rng, nops, bounds, maxlive=24):
         elif r < 0.98:
             ex.append(["clearall", 0, 0])
             live = {}
-    ex.append(["clearall", 0, 0])
+            if rng.random() < 0.5:
+                ex.append(["del", 0, 0])
+                ex.append(["new", 0, 0])
+    ex.append(["gdel", 0, 0] if glob else ["clearall", 0, 0])
     return ex
+
+
+def held_at_destroy(ex):
+    """the execution destroys a global cache while at least one buffer obtained through it is still in use"""
+    live = set()
+    for op, a, n in ex:
+        if op in ("alloc", "snew"):
+            live.add(a)
+        elif op in ("dealloc", "sdel"):
+            live.discard(a)
+        elif op in ("clearall", "gnew", "new"):
+            live = set()
+        elif op == "gdel":
+            if live:
+                return True
+            live = set()
+    return False
 
 
 def run(ctx):
@@ -170,14 +208,17 @@ def run(ctx):
     ctx.notes["model"] = {"distinct_states": r.distinct, "depth": r.depth, "constants": mc}
 
     # ---- leg 2: behaviours generated by TLC from the specification, executed on the real cache
-    nontrivial = set()
+    nontrivial, destroyed_in_use = set(), set()
     t, p = cfgs(bounds, "g")
     allsizes = ", ".join(map(str, boundary_sizes(bounds)))
+    D = 5 if quick else 6                 # the first call of a behaviour constructs the cache object
     for (lab, gen, sim, depth) in [
-        ("bfs", {"classes": cl, "sizes": "%d, %d, %d" % (b0, b0 + 1, limit + 1), "maxlive": 3, "D": 4 if quick else 5,
-                 "fsizes": "%d, %d" % (b0 + 1, limit + 50)}, None, None),
-        ("sim", {"classes": cl, "sizes": allsizes, "maxlive": 8, "D": 40, "fsizes": "0, %d, %d, %d" % (b0, limit, limit + 50)},
-         30 if quick else 300, 46),
+        ("bfs", {"classes": cl, "sizes": "%d, %d, %d" % (b0, b0 + 1, limit + 1), "maxlive": 3, "D": D,
+                 "fsizes": "%d, %d" % (b0 + 1, limit + 50), "kinds": '"bare"'}, None, None),
+        ("bfsg", {"classes": cl, "sizes": "%d, %d" % (b0, limit + 1), "maxlive": 3, "D": D,
+                  "fsizes": "0", "kinds": '"global"'}, None, None),
+        ("sim", {"classes": cl, "sizes": allsizes, "maxlive": 8, "D": 40, "fsizes": "0, %d, %d, %d" % (b0, limit, limit + 50),
+                 "kinds": '"bare", "global"'}, 30 if quick else 300, 46),
     ]:
         g = ctx.tlc("Gen_StrCache", ctx.write_cfg("Gen_StrCache_" + lab, GEN % gen), workers=8, simulate=sim, depth=depth, timeout=1800, heap="8g")
         execs = [[[st["op"], st["a"], st["n"]] for st in h] for h in g.beh]
@@ -187,24 +228,39 @@ def run(ctx):
         conform(ctx, lab, execs, harness(bounds), "Trace_StrCache", t, p, key_fn, meta=meta, tlc_timeout=1800)
         ctx.evaluations += sum(len(e) for e in execs)
         for e in execs:
-            if any(l[0] in ("dealloc", "foreign", "clearcache") for l in e):
+            if any(l[0] in ("dealloc", "sdel", "foreign", "clearcache") for l in e) or held_at_destroy(e):
                 nontrivial.add(json.dumps(e))
+            if held_at_destroy(e):
+                destroyed_in_use.add(json.dumps(e))
 
     # ---- leg 3: long seeded random histories on the real cache, validated against the specification
     nexec, nops = (8, 400) if quick else (50, 2000)
-    execs = [random_exec(ctx.rng, nops, bounds) for _ in range(nexec)]
+    execs = [random_exec(ctx.rng, nops, bounds, kind=("bare", "global")[i % 2]) for i in range(nexec)]
     ctx.sample({"source": "seeded random driver", "execution": ["\t".join(map(str, l)) for l in execs[0][:14]]})
     conform(ctx, "random", execs, harness(bounds), "Trace_StrCache", t, p, key_fn, meta=meta, tlc_timeout=2400)
     ctx.evaluations += sum(len(e) for e in execs)
     for e in execs:
         nontrivial.add(json.dumps(e[:60]))
+        if held_at_destroy(e):
+            destroyed_in_use.add(json.dumps(e[:60]))
+    ctx.notes["executions_destroying_a_global_cache_with_buffers_in_use"] = len(destroyed_in_use)
+    if not destroyed_in_use:
+        raise Infra("no generated execution destroys a global cache while buffers are in use")
     return ctx.finish(
-        rule="executions = TLC-generated behaviours of StrCache (exhaustive to depth D over 3 sizes; simulation to depth 40 over the sizes "
-             "b-1, b, b+1 around every measured class bound, 0, 1, 1024) plus seeded random histories (sizes 0..1024), each run on the real "
-             "SimpleStringInternalCache over a recording allocator under ASan/UBSan; distinct = distinct call sequences; non-trivial = "
-             "contains a release, a foreign release or a clearCache",
+        rule="executions = TLC-generated behaviours of StrCache (exhaustive to depth D: a bare cache over 3 sizes, a global cache over 2 sizes; "
+             "simulation to depth 40 over the sizes b-1, b, b+1 around every measured class bound, 0, 1, 1024, both kinds) plus seeded random "
+             "histories (sizes 0..1024, alternately bare / global), each run on the real SimpleStringInternalCache (bare) or the real "
+             "GlobalSimpleStringCache + SimpleStringCacheAllocator + SimpleString objects (global) over a recording allocator under ASan/UBSan; "
+             "distinct = distinct call sequences; non-trivial = contains a release, a foreign release, a clearCache, or the destruction of a "
+             "global cache with buffers still in use",
         distinct_nontrivial=len(nontrivial), exhaustive=False,
         assumptions=["the class table (bounds %s) is measured from the code: class = maximal run of sizes a fresh cache keeps after release and serves with the same capacity" % bounds,
                      "releases use a size of the class the buffer was requested in (the property's quantifier); cross-class wrong sizes and double releases are not generated",
                      "which idle block of the class is reused, and whether one is reused, is left to the implementation",
-                     "a bare cache destroyed without clearAll is outside the claim (every execution ends with clearAll)"])
+                     "destroyed = the GlobalSimpleStringCache (cache + adaptor + installation) goes away, with or without buffers in use; a bare "
+                     "SimpleStringInternalCache leaves clearing to its owner: its destruction is only exercised after clearAll (its destructor "
+                     "returns no block by itself, and its class table comes from the default malloc allocator, not the underlying one)",
+                     "under a global cache the release of a foreign pointer is not exercised (the warning text is itself built from SimpleStrings "
+                     "served by the same cache); clearCache / clearAll of a global cache are not reachable from outside",
+                     "SimpleString objects are created from a C string (one buffer request of strlen+1 bytes) and destroyed; growing a string in "
+                     "place (two cache calls in one SimpleString call) is not exercised"])
